@@ -315,10 +315,11 @@ Definition send (c : nat) (s : state) (m : msg) : state :=
 (* --- tracebacks -------------------------------------------------------------- *)
 (* TRACEBACK_MESSAGE's serializer: reason/traceback through safeunicode, exception type to its name;
    it cannot fail, so the nested Logger.write goes straight to send *)
+(* (the message's own three fields win over extracted fields of the same name: repaired behaviour, fix F10) *)
 Definition traceback_fields (e : exn) (extra : fields) : fields :=
-  fupdate (fset K_reason (safe_str e)
+  fupdate extra (fset K_reason (safe_str e)
           (fset K_traceback VTb
-          (fset K_exception (VClassName (e_cls e)) []))) extra.
+          (fset K_exception (VClassName (e_cls e)) []))).
 
 (* get_fields_for_exception + write_traceback, mutually dependent in the code.
    [fuel] bounds the extractor-failure chain (see Proofs: for the repaired code
